@@ -19,7 +19,7 @@ func init() {
 		Level: "other",
 		Explanation: "Decided (structural necessary conditions of layout independence): (R1.1) inside the re-entrant object-resolution cycle the shared file handle is only used positionally (ReadAt / SectionReader / Stat / Close), never through its seek offset, so resolving an indirect /Length cannot disturb a suspended parse; (R1.2) inheritable page attributes are looked up on a cycle that follows /Parent, i.e. to any depth; (R1.3) decoded content streams are joined with PDF white space between them; (R1.4) the filter, xref-kind, font-subtype and /Length-type dispatch tables are complete; (R1.5) page leaves are appended in /Kids order; (R4.1/R4.3 are re-used: last startxref, newest-wins merge, cache discipline). " +
 			"Not decided: that extracted text equals the logical document, decoding correctness (C05/C07), object order/EOL variants at run time, the page count claim beyond returning /Count.",
-		Rules: []func(*eng.Ctx){ruleSharedHandle, ruleInheritWalk, ruleContentSep, ruleDispatchTables, rulePageOrder, ruleMergeOrder, ruleCacheDiscipline, ruleXRefStreamCursor, roleRule("R1.R", "core", "reader", "pages"), ruleReadBytesOwned, ruleFilterParmsParallelC01, ruleWorklistOrderC01},
+		Rules: []func(*eng.Ctx){ruleSharedHandle, ruleInheritWalk, ruleContentSep, ruleDispatchTables, rulePageOrder, ruleMergeOrder, ruleCacheDiscipline, ruleXRefStreamCursor, roleRule("R1.R", "core", "reader", "pages"), ruleReadBytesOwned, ruleFilterParmsParallelC01, ruleWorklistOrderC01, ruleFontsFromOwnResources},
 	})
 }
 
@@ -276,7 +276,7 @@ func ruleInheritWalk(c *eng.Ctx) {
 // R1.3
 func ruleContentSep(c *eng.Ctx) {
 	const R = "R1.3-CONTENT-SEP"
-	c.Rule(R, "when several content streams are concatenated, a PDF white-space byte is appended between two streams (the split may fall between any two tokens)", 1, 0)
+	c.Rule(R, "when several content streams are concatenated, a PDF white-space byte is appended between two streams (the split may fall between any two tokens), and the joined content is parsed once, not stream by stream", 2, 0)
 	fn := c.P.Func("reader.(*Reader).extractTextWithFragments")
 	if fn == nil {
 		c.Undec(R, "reader.(*Reader).extractTextWithFragments", token.NoPos, "anchor not found")
@@ -339,7 +339,36 @@ func ruleContentSep(c *eng.Ctx) {
 			dataAppend++
 		}
 	}
+	// a page's content is ONE token sequence: it is parsed once, after joining, never stream by stream
+	// (operands left at the end of one stream belong to the operator that opens the next)
+	perStream := token.NoPos
+	for _, h := range eng.Cluster(fn, 1) {
+		if h.Pkg != fn.Pkg {
+			continue
+		}
+		for _, ci := range eng.Calls(h, false, func(n string, _ ssa.CallInstruction) bool {
+			return n == "contentstream.NewParser" || n == "contentstream.(*Parser).Parse" || strings.HasSuffix(n, ").ExtractFromBytes") || n == "text.(*Extractor).Extract"
+		}) {
+			if eng.InLoop(ci.Block()) && h == fn {
+				perStream = ci.Pos()
+			}
+		}
+	}
+	c.Check(perStream == token.NoPos, R, name+"#parse-once", fn.Pos(), "the joined content is parsed once", "a content-stream parser runs inside the loop over the page's streams ("+c.P.Pos(perStream)+"): operands that end one stream never reach the operator that starts the next")
+	joined := false
+	for _, ci := range eng.CallsNamed(fn, false, "bytes.Join") {
+		if sep, ok := eng.ConstString(ci.Common().Args[1]); ok && len(sep) > 0 && pdfWhitespace[sep[0]] {
+			joined = true
+		}
+		for v := range eng.Slice(ci.Common().Args[1], nil) {
+			if k, isC := eng.ConstInt(v); isC && k > 0 && k < 256 && pdfWhitespace[byte(k)] {
+				joined = true
+			}
+		}
+	}
 	switch {
+	case joined:
+		c.Ok(R, name+"#join", pos, "streams are joined with a white-space separator")
 	case dataAppend == 0:
 		c.Ok(R, name+"#join", pos, "streams are not concatenated byte-wise")
 	case sepAppend == 0:
